@@ -53,6 +53,9 @@ def _c09_hist(h):
     rnd = random.Random(_seed() * 13 + 1)
     cases = [(nm, s, [(x, y) for x, y in reg.cell_centres()][::7]) for nm, s, reg in _shapes(h.tier)]
     cases += [("blob3", mk_simple(zoo.blob3(), "float"), zoo.generic_points(rnd, ((-3, -3), (3, 3)), 25)), ("mixed123", mk_simple(zoo.mixed123(), "float"), zoo.generic_points(rnd, ((-3, -1), (7, 6)), 25))]
+    # two *distinct* control point objects with equal coordinates (doubled inner control point of a cubic)
+    drop = [[(Fraction(6), Fraction(0)), (Fraction(3), Fraction(4)), (Fraction(3), Fraction(4)), (Fraction(0), Fraction(0))], [(Fraction(0), Fraction(0)), (Fraction(6), Fraction(0))]]
+    cases += [("drop", mk_simple(drop, "float"), zoo.generic_points(rnd, ((-1, -1), (7, 4)), 25))]
     for nm, S, pts in cases:
         d0 = desc_of(S)
         truth0 = [d0.contains(p) for p in pts]
@@ -62,7 +65,7 @@ def _c09_hist(h):
             seq = []
             M = [[Fraction(1), Fraction(0)], [Fraction(0), Fraction(1)]]
             v = [Fraction(0), Fraction(0)]
-            exact_ok = nm not in ("blob3", "mixed123")
+            exact_ok = nm not in ("blob3", "mixed123", "drop")
             for _ in range(rnd.randint(1, 4)):
                 kind = rnd.choice(["move", "scale", "rotate"] if rep % 2 else ["move", "scale"])
                 if kind == "move":
@@ -592,3 +595,39 @@ def _c02_after(h):
                         h.finding("chord-sampling-lune", f"{nm} after {kind}{args}: point {lp} truth {t}, library {got} = membership in the chord polygon")
                         continue
                 h.ensure("membership-is-truth-for-the-current-boundary", got == t, detail=f"{nm} after {kind}{args}: point {lp} truth {t} (boundary orientation as it is now), library {got}")
+
+
+@bounded("C13.rc-big-denominators", "C13", funcs=["polygon.Point2D.__init__", "polygon.Point2D.__copy__", "jordancurve.JordanCurve.split", "curve.Intersection.lines"],
+         bound="seeded pairs of rational rectangles / triangles whose coordinates have denominators around 1e5 (products of intermediate denominators exceed 1e9): every result vertex, area and first moment whose exact value has a denominator <= 1e9 must be that exact value, as a well-formed Fraction", timeout=600)
+def _c13_bigden(h):
+    rnd = random.Random(_seed() * 67 + 3)
+    primes = [100003, 100019, 100043, 100049, 100057, 100069, 99991, 99989]
+
+    def fr(lo, hi):
+        d = rnd.choice(primes)
+        return Fraction(rnd.randint(lo * d, hi * d), d)
+
+    for k in range(12 if h.tier == "quick" else 60):
+        x0, x1, y0, y1 = fr(0, 1), fr(3, 4), fr(0, 1), fr(2, 3)
+        u0, u1, v0, v1 = fr(1, 2), fr(5, 6), fr(-2, -1), fr(1, 2)
+        A = Primitive.polygon([(x0, y0), (x1, y0), (x1, y1), (x0, y1)])
+        B = Primitive.polygon([(u0, v0), (u1, v0), (u1, v1), (u0, v1)])
+        h.case(("rects", k % 4), True)
+        for nm, op, verts, area in (("and", lambda a, b: a & b, {(u0, y0), (x1, y0), (x1, v1), (u0, v1)}, (x1 - u0) * (v1 - y0)),
+                                     ("or", lambda a, b: a | b, None, (x1 - x0) * (y1 - y0) + (u1 - u0) * (v1 - v0) - (x1 - u0) * (v1 - y0))):
+            try:
+                R = op(A, B)
+            except Exception as e:  # noqa: BLE001
+                h.ensure("operator-does-not-raise", False, detail=f"rects {k} {nm}: {type(e).__name__}: {e}")
+                continue
+            got = {(v[0], v[1]) for j in R.jordans for v in j.vertices}
+            wf = all(isinstance(c, Fraction) and type(c.numerator) is int and type(c.denominator) is int for v in got for c in v)
+            h.ensure("result-coordinates-are-well-formed-fractions", wf, detail=f"rects {k} {nm}: {sorted(got)[:2]}")
+            if verts is not None:
+                h.ensure("crossing-vertices-with-small-exact-denominator-are-exact", got == verts, detail=f"rects {k} {nm}: got {sorted(got)}, exact {sorted(verts)}")
+            a = IntegrateShape.area(R)
+            if area.denominator <= 10**9:
+                h.ensure("area-exact", a == area, detail=f"rects {k} {nm}: {a} vs {area}")
+            else:
+                h.ensure("area-exact-up-to-stored-rounding", abs(a - area) <= Fraction(1, 10**8), detail=f"rects {k} {nm}: {float(a)} vs {float(area)}")
+    h.sample(dict(coordinates="k/p with p a prime near 1e5", products="denominators of crossing parameters ~1e10"))
